@@ -8,8 +8,9 @@
 //! The outcome class (`ok <digest>` / `err <error>` / `panic`) is written as the implementation's line and is
 //! diffed against the Lean Cursor-monad model of the same decoder (`RtcModel/C07*.lean`).
 //! Property oracles evaluated directly on the implementation: any panic → `panic:<entry>:<file:line>`,
-//! call slower than the deadline → `hang:<entry>`, allocation above `2·(a·len+b)+4096` → `alloc:<entry>`
-//! (a, b are the constants of the `allocBound_*` theorem; factor 2 = `Vec` doubling).
+//! call slower than the deadline → `hang:<entry>`, allocation above `2·(a·len+b)+512` → `alloc:<entry>`
+//! (a, b are EXACTLY the constants of the `allocBound_*` theorem; factor 2 = `Vec` doubling). In addition the measured
+//! bytes of every compared case are sent to the model (`A=<bytes>`), whose own `alloc` counter must cover them.
 //!
 //! NOTE: this module installs the process-wide `#[global_allocator]` (a pass-through to `System` that adds
 //! the requested sizes to a thread-local counter). Only one may exist per binary.
@@ -25,6 +26,8 @@ pub mod media;
 pub mod sdp;
 pub mod dtlslive;
 pub mod srtp;
+pub mod sctpassoc;
+pub mod sharedudp;
 
 // ---------------------------------------------------------------------------------------------
 // counting allocator
@@ -51,6 +54,16 @@ unsafe impl std::alloc::GlobalAlloc for Counting {
 }
 #[global_allocator]
 static GLOBAL: Counting = Counting;
+thread_local! { static LAST_USED: Cell<u64> = const { Cell::new(0) }; static MARK: Cell<u64> = const { Cell::new(u64::MAX) }; static START: Cell<u64> = const { Cell::new(0) }; }
+/// called by a stream's closure right after the decoder proper returned: allocation after this point (digest
+/// formatting, operations on the parsed value) is not attributed to the decoder
+/// called right before the decoder proper (after the harness' own input copies)
+pub fn start_alloc() { START.with(|m| m.set(BYTES.with(|b| b.get()))); }
+pub fn mark_alloc() { MARK.with(|m| m.set(BYTES.with(|b| b.get()))); }
+/// slack of every allocation comparison (error objects, minimum `Vec` capacities) — same constant as `allocSlack` in Drv/C07.lean
+pub const ALLOC_SLACK: u64 = 512;
+/// bytes the allocator handed out during the most recent `exec` call on this thread
+pub fn last_alloc_used() -> u64 { LAST_USED.with(|b| b.get()) }
 pub fn alloc_reset() { BYTES.with(|b| b.set(0)); FREED.with(|b| b.set(0)); }
 pub fn alloc_read() -> u64 { BYTES.with(|b| b.get()) }
 /// bytes allocated minus bytes freed on this thread since the last `alloc_reset` (what a call sequence retains)
@@ -87,6 +100,31 @@ fn start_watchdog(dir: &str) {
     });
 }
 
+// ---------------------------------------------------------------------------------------------
+// process-wide panic counter ("no panic in any task"): tokio catches panics of spawned tasks, so a panic that does
+// not unwind through `catch_unwind` of `exec` would be lost. The hook below (chained in front of the one installed by
+// `crate::catch`) counts EVERY panic of the process and keeps its location; `exec` fails the case when the counter
+// moved although the call itself returned.
+static PANICS: std::sync::atomic::AtomicU64 = std::sync::atomic::AtomicU64::new(0);
+static LAST_PANIC: parking_lot::Mutex<String> = parking_lot::Mutex::new(String::new());
+pub fn install_panic_counter() {
+    static ONCE: std::sync::Once = std::sync::Once::new();
+    ONCE.call_once(|| {
+        let _ = catch(|| ());                                   // makes lib.rs install its hook first
+        let prev = std::panic::take_hook();
+        std::panic::set_hook(Box::new(move |info| {
+            PANICS.fetch_add(1, std::sync::atomic::Ordering::SeqCst);
+            let loc = info.location().map(|l| format!("{}:{}", l.file(), l.line())).unwrap_or_default();
+            let msg = if let Some(s) = info.payload().downcast_ref::<&str>() { s.to_string() }
+                      else if let Some(s) = info.payload().downcast_ref::<String>() { s.clone() } else { "?".into() };
+            if std::env::var_os("C07_PANIC_TRACE").is_some() { eprintln!("panic at {loc}: {msg}"); }   // debugging aid for harness-side crashes
+            *LAST_PANIC.lock() = format!("{loc}: {msg}");
+            prev(info);
+        }));
+    });
+}
+pub fn panic_count() -> u64 { PANICS.load(std::sync::atomic::Ordering::SeqCst) }
+
 /// strip the absolute prefix of a panic location so signatures are stable: `…/src/rtp.rs:231` → `src/rtp.rs:231`
 pub fn panic_site(msg: &str) -> String {
     let loc = msg.split(": ").next().unwrap_or("");
@@ -99,15 +137,26 @@ pub fn exec<F: FnOnce() -> String + std::panic::UnwindSafe>(
     run: &mut Run, stream: &str, input: &str, entry: &str, nontrivial: bool, bound: Option<(u64, u64, u64)>, f: F,
 ) -> String {
     let case = format!("{stream} {input}");
+    install_panic_counter();
+    let panics0 = panic_count();
     *WATCH.lock() = Some((entry.to_string(), case.clone(), Instant::now()));
     alloc_reset();
+    MARK.with(|m| m.set(u64::MAX)); START.with(|m| m.set(0));
     let t0 = Instant::now();
     let r = catch(f);
     let dt = t0.elapsed();
-    let used = alloc_read();
+    let used = { let m = MARK.with(|m| m.get()); (if m != u64::MAX { m } else { alloc_read() }).saturating_sub(START.with(|m| m.get())) };
+    LAST_USED.with(|b| b.set(used));
     *WATCH.lock() = None;
     let out = match r {
-        Ok(s) => s,
+        Ok(s) => {
+            if panic_count() != panics0 {
+                // a panic happened somewhere in the process (a spawned task) while this call ran and did not reach us
+                let msg = LAST_PANIC.lock().clone();
+                run.fail(&format!("panic:{entry}(task):{}", panic_site(&msg)), &case, &msg);
+                "panic".to_string()
+            } else { s }
+        }
         Err(msg) => {
             run.fail(&format!("panic:{entry}:{}", panic_site(&msg)), &case, &msg);
             "panic".to_string()
@@ -115,7 +164,7 @@ pub fn exec<F: FnOnce() -> String + std::panic::UnwindSafe>(
     };
     if dt > SLOW_LIMIT { run.fail(&format!("hang:{entry}"), &case, &format!("call took {dt:?}")); }
     if let Some((a, b, len)) = bound {
-        let lim = 2 * (a * len + b) + 4096;
+        let lim = 2 * (a * len + b) + ALLOC_SLACK;
         if used > lim { run.fail(&format!("alloc:{entry}"), &case, &format!("allocated {used} bytes for {len} input bytes (limit {lim})")); }
         let k = format!("alloc_max_ratio_x100:{stream}");
         let ratio = used * 100 / (a * len + b).max(1);
@@ -124,7 +173,12 @@ pub fn exec<F: FnOnce() -> String + std::panic::UnwindSafe>(
     }
     let class = out.split(' ').next().unwrap_or("?").to_string();
     run.count(&format!("{stream}:{class}"));
-    run.case(stream, input, &out, nontrivial);
+    // allocation tie: the measured bytes travel to the model, which must account for them (see `handle` in Drv/C07.lean)
+    if bound.is_some() && (out.starts_with("ok ") || out.starts_with("err ")) {
+        run.case(stream, &format!("{input} A={used}"), &format!("{out} a+"), nontrivial);
+    } else {
+        run.case(stream, input, &out, nontrivial);
+    }
     out
 }
 
@@ -241,7 +295,8 @@ pub fn all_targets() -> Vec<Target> {
 fn replay(case: &str) {
     let mut it = case.split(' ');
     let stream = it.next().unwrap_or("");
-    let args: Vec<&str> = it.collect();
+    let mut args: Vec<&str> = it.collect();
+    if args.last().map_or(false, |a| a.starts_with("A=")) { args.pop(); }
     let mut run = Run::new("c07", "/tmp/c07-replay");
     let mut done = false;
     for t in all_targets() {
@@ -258,6 +313,8 @@ fn replay(case: &str) {
     if !done { done = sdp::replay_special(&mut run, stream, &args); }
     if !done { done = dtlslive::replay_special(&mut run, stream, &args); }
     if !done { done = srtp::replay_special(&mut run, stream, &args); }
+    if !done { done = sctpassoc::replay_special(&mut run, stream, &args); }
+    if !done { done = sharedudp::replay_special(&mut run, stream, &args); }
     if !done { println!("unknown stream {stream}"); }
     else if args.len() != 1 || !all_targets().iter().any(|t| t.stream == stream) {
         use std::io::Write;
@@ -269,6 +326,10 @@ fn replay(case: &str) {
 }
 
 pub fn run(args: &Args) {
+    // `anyhow` captures a backtrace (≈ 3–4 KB of allocation and a stack walk) for every error when RUST_BACKTRACE /
+    // RUST_LIB_BACKTRACE is set; the allocation oracles are calibrated for the default (unset) configuration.
+    // Single-threaded at this point.
+    unsafe { std::env::set_var("RUST_BACKTRACE", "0"); std::env::set_var("RUST_LIB_BACKTRACE", "0"); }
     if let Some(c) = &args.replay { replay(c); return; }
     let mut run = Run::new("c07", &args.out);
     start_watchdog(&args.out);
@@ -286,6 +347,8 @@ pub fn run(args: &Args) {
     sdp::special(&mut run, &mut rng.fork(), args.tier_thorough);
     dtlslive::special(&mut run, &mut rng.fork(), args.tier_thorough);
     srtp::special(&mut run, &mut rng.fork(), args.tier_thorough);
+    sctpassoc::special(&mut run, &mut rng.fork(), args.tier_thorough);
+    sharedudp::special(&mut run, &mut rng.fork(), args.tier_thorough);
     run.notes.insert("targets".into(), serde_json::json!(targets.iter().map(|t| t.stream).collect::<Vec<_>>()));
     run.notes.insert("type_sizes".into(), rtp::type_sizes());
     run.notes.insert("type_sizes_media".into(), media::type_sizes());
